@@ -116,6 +116,16 @@ def run(tier):
                "R1:0 = RssV;", "R3 = RsV;", "CdV = RsV;", "MuV = RsV;", "RddV = RssV;", "int32_t PdX = RsV; RxV = PdX;", "P0 = RsV; P0 = RtV;",
                "PeV = RsV;", "P3 = RsV; P2 = RsV; P1 = RsV; P0 = RsV;", "RxV = P1; RyV = PtV;", "HEX_REG_ALIAS_FRAMEKEY = RsV; P1 = RtV;"]
     progs = progs + ["{ " + t + " }" for t in targets] + ["{ if (RuV > 0) { " + t + " } }" for t in targets]
+    # untargeted complement: typed random bodies whose leaves / targets are operands of every kind (mixed family, operand variant)
+    # and store/load shapes that feed each other; the implied attribute set comes from my own AST of the same text
+    from .. import families
+    shapes = ["{ mem_store_u8(RsV, mem_load_u8(RtV)); }", "{ mem_store_s16(RsV, mem_load_s16(RtV)); }", "{ mem_store_u32(RsV, (int32_t)mem_load_u8(RtV)); }",
+              "{ EA = RsV; mem_store_u64(EA, mem_load_u64(EA)); }", "{ mem_store_u16(mem_load_u32(RsV), RtV); }", "{ RdV = mem_load_u8(mem_load_u32(RsV)); }",
+              "{ JUMP(mem_load_u32(RsV)); }", "{ if (mem_load_u8(RsV)) { RdV = 1; } }", "{ PdV = mem_load_u8(RsV); }", "{ mem_store_u8(RsV, PtN); }",
+              "{ mem_store_u8(RsV, P0_NEW); }", "{ RdV = (RsV > 0) ? mem_load_s8(RtV) : 0; }", "{ for (i = 0; i < 2; i++) { RxV = RxV + i; } }",
+              "{ for (i = 0; i < 2; i++) { mem_store_u8(RsV + i, RtV); } }", "{ for (i = 0; i < 2; i++) { if (RsV) { RxV = i; } } }",
+              "{ RdV = (RsV > 0) ? RtV : RuV; }", "{ RdV = RsV && RtV; }", "{ RdV = ({ RxV = RxV + 1; RxV; }); }", "{ RdV = clz32(RsV); }"]
+    progs = progs + shapes + families.mixed(tier, 1500 if thorough else 200, salt=13, operands=True) + families.mixed(tier, 500 if thorough else 100, salt=131)
     singles = [(p,) for p in progs]
     pairs = [(progs[i], progs[(i * 37 + 11) % len(progs)]) for i in range(0, len(progs), 1 if thorough else 4)]
     recs = framework.pmap(_attr_prog, singles + pairs, chunksize=8)
